@@ -111,6 +111,11 @@ impl PreloadUnverifiedBlocksChannel {
         self.shared
             .insert_block_status(block_hash.clone(), BlockStatus::BLOCK_INVALID);
         self.is_pending_verify.remove(&block_hash);
+        #[cfg(ckb_verif)]
+        crate::verif::emit(
+            "PreloadReject",
+            &format!("\"b\":{}", crate::verif::h(&block_hash)),
+        );
         task.execute_callback(Err(InternalErrorKind::Other
             .other(format!(
                 "block {}-{} or its parent {} failed verification and has been deleted",
